@@ -24,7 +24,7 @@ type c12 struct{ base }
 
 func init() {
 	core.Register(c12{base{id: "C12", race: true, level: "exploration", quickB: 16, thoroughB: 32,
-		rule: "startup packets with 0-50 key/value pairs (duplicates, empty values, unicode, long values; malformed: key without value, missing final terminator, truncated packet), server configurations (global parameter maps of 0-20 entries including keys that collide with the fixed ones, with/without Version, with/without password auth); the reply must be the auth exchange, then ParameterStatus messages whose multiset equals configured + {server_encoding, client_encoding = UTF8, is_superuser, session_authorization = this user, server_version iff configured}, each key once, then exactly one ReadyForQuery(I); ClientParameters / ServerParameters / AuthenticatedUsername / RemoteAddress read inside the parser callback must equal what this connection sent / was told; the configured map is deep-compared after serving; groups of 2-64 connections connect at once (yield injection, race detector); CancelRequest as first packet, after 'N' and after a TLS upgrade must be closed without reply or callback. Non-trivial = duplicates, collisions, malformed packet, concurrency or cancel; distinct = (config shape, packet shape).",
+		rule: "startup packets with 0-50 key/value pairs (duplicates, empty values, unicode, long values; malformed: key without value, last value unterminated, complete pairs without the list terminator (also an empty body), truncated packet), server configurations (global parameter maps of 0-20 entries including keys that collide with the fixed ones, with/without Version, with/without password auth); the reply must be the auth exchange, then ParameterStatus messages whose multiset equals configured + {server_encoding, client_encoding = UTF8, is_superuser, session_authorization = this user, server_version iff configured}, each key once, then exactly one ReadyForQuery(I); ClientParameters / ServerParameters / AuthenticatedUsername / RemoteAddress read inside the parser callback must equal what this connection sent / was told; the configured map is deep-compared after serving; groups of 2-64 connections connect at once (yield injection, race detector); CancelRequest as first packet, after 'N' and after a TLS upgrade must be closed without reply or callback. Non-trivial = duplicates, collisions, malformed packet, concurrency or cancel; distinct = (config shape, packet shape).",
 		need:        []string{"startups_checked", "parameter_status_multisets_compared", "context_reads_compared", "malformed_startups", "concurrent_groups", "cancel_requests", "configured_map_compared", "race_detector_active_batches"},
 		assumptions: append([]string{"for a duplicated startup key the handler may see any one of the sent values; is_superuser may be 'on' or 'off'"}, commonAssumptions...)}})
 }
@@ -147,7 +147,7 @@ func c12genPacket(rng *core.Rng, tag string) c12packet {
 		p.Pairs = append(p.Pairs, [2]string{k, v})
 	}
 	if rng.Intn(6) == 0 {
-		p.Bad = core.Pick(rng, []string{"novalue", "noterm", "truncated"})
+		p.Bad = core.Pick(rng, []string{"novalue", "noterm", "nolistterm", "truncated"})
 	}
 	return p
 }
@@ -172,6 +172,8 @@ func (p c12packet) bytes() []byte {
 		} else {
 			rest = rest[:len(rest)-1] // last value unterminated, no final terminator
 		}
+	case "nolistterm":
+		// every pair is complete but the empty key closing the list is missing (with no pairs: an empty body)
 	case "truncated":
 		rest = append(rest, 0)
 		full := pg.StartupRaw(pg.Version30, rest)
